@@ -655,6 +655,17 @@ def mps_normalize(mk, insert):
 # NOTE: MPS.compute_local_expectation / _canonical / _via_envs document `dict[int or tuple[int]]`
 # term keys but raise TypeError for a bare int key: a rejection, no wrong value -> outside C13.
 
+
+def _canon_params():
+    out = []
+    for c in range(3):
+        for w in [(1,), (0, 1), (1, 0), (1, 2), (2, 1), (0, 2), (2, 0), (0,), (2,)]:
+            for route in ("expec", "rdm", "expec_normalized", "compute"):
+                quick = w in [(1,), (1, 0), (2, 0), (2, 1), (0,)]
+                out.append({"c": c, "where": w, "route": route, "_tiers": _Q if quick else _T})
+    return out
+
+
 @obligation(PROP, params=_canon_params(), rounds=2, timeout_s=700, max_rows=60000, wall_s=600, solver_timeout_ms=300000)
 def mps_canonical_routes(mk, c, where, route):
     """canonical-form routes on an MPS that satisfies the record cur_orthog=(c, c) by hypothesis
